@@ -18,13 +18,15 @@ Definition pair_holds_b (e : expectation) (hash_eq : bool) : bool :=
 Inductive case :=
 | CasePair (a b : gv) (e : expectation) (hash_eq : bool)
 (* one reconcile of the real hash controller: np.Hash(), annotations of the pool and of its claims before / after *)
-| CaseHashCtl (h : string) (pool_before : option string * option string) (claims_before : list cl_ann)
+| CaseHashCtl (managed : bool) (fault : hfault) (h : string) (pool_before : option string * option string) (claims_before : list cl_ann)
               (pool_after : option string * option string) (claims_after : list cl_ann)
+              (foreign_before foreign_after : list cl_ann)      (* claims of another pool *)
 (* one NodePool through template construction, ToNodeClaim, launch, and a sequence of drift reconciles.
    [built_from] = Hash() of the pool object NewNodeClaimTemplate was given (after any edits, whatever the hash
    controller had stamped by then); [stamp] = the hash / hash-version annotations the new claim carries *)
 | CaseSys (built_from : string) (stamp : option string * option string) (validated : bool) (noresolve : list string) (p : pool) (pod : list (string * call))
-          (claim_l provider_l final_l : labels) (fresh_scenario : bool) (steps : list (dinput * option string))
+          (claim_l provider_l final_l : labels) (steps : list (bool * bool * bool * dinput * option string))
+          (* per step: controller active, status patch succeeds, claim is fresh; input; observed Drifted reason *)
 | CaseNote.
 
 (* monomorphic list builders: the generated case files contain no implicit arguments to infer *)
@@ -70,16 +72,15 @@ Fixpoint drifted_kept (h : string) (before after : list cl_ann) : bool :=
 
 (* the drift steps of one claim: the instance-type cache and the previous condition are threaded; after each
    step the model continues from what the implementation did *)
-Fixpoint check_steps (n : nat) (fresh_scenario : bool) (validated : bool) (cached : bool) (prev : option string)
-         (steps : list (dinput * option string)) : list string :=
+Fixpoint check_steps (cached : bool) (prev : option string)
+         (steps : list (bool * bool * bool * dinput * option string)) : list string :=
   match steps with
   | [] => []
-  | (d0, obs) :: rest =>
+  | (active, patch_ok, fresh, d0, obs) :: rest =>
       let d := with_cached d0 cached in
-      let fresh := validated && (Nat.eqb n 0 || fresh_scenario) in
-      (if opt_str_eqb (drift_reconcile d prev) obs then [] else ["corr:drift-reconcile"])
-      ++ step_oracle_b fresh d obs
-      ++ check_steps (S n) fresh_scenario validated (cache_after d) obs rest
+      (if opt_str_eqb (controller_reconcile active patch_ok d prev) obs then [] else ["corr:drift-reconcile"])
+      ++ (if active && patch_ok then step_oracle_b fresh d obs else [])
+      ++ check_steps (if active then cache_after d else cached) obs rest
   end.
 
 Definition stamp_ok (ver built_from : string) (stamp : option string * option string) : bool :=
@@ -94,21 +95,25 @@ Definition check_case (c : case) : list string :=
       tag (conforms struct_table a && conforms struct_table b) "corr:field-table"
       ++ tag (Bool.eqb (same_hash struct_table a b) hash_eq) "corr:hash-equality"
       ++ tag (pair_holds_b e hash_eq) "oracle:hash-pair"
-  | CaseHashCtl h pb cb pa ca =>
-      let '(pa', ca') := hash_reconcile hash_version h pb cb in
+  | CaseHashCtl managed fault h pb cb pa ca fb fa =>
+      let '(pa', ca') := hash_controller managed fault hash_version h pb cb in
       tag (opt_str_eqb (fst pa') (fst pa) && opt_str_eqb (snd pa') (snd pa)) "corr:hash-controller-pool"
       ++ tag (anns_eqb ca' ca) "corr:hash-controller-claims"
-      (* oracle: afterwards the pool carries the current hash under the current version *)
-      ++ tag (opt_str_eqb (fst pa) (Some h) && opt_str_eqb (snd pa) (Some hash_version)) "oracle:pool-annotated"
+      ++ tag (anns_eqb fb fa) "corr:hash-controller-foreign-claims"
+      (* oracle: without faults a managed pool ends with the current hash under the current version *)
+      ++ (match fault with
+          | HNoFault => tag (negb managed || (opt_str_eqb (fst pa) (Some h) && opt_str_eqb (snd pa) (Some hash_version))) "oracle:pool-annotated"
+          | _ => []
+          end)
       (* oracle: a claim that already carries Drifted stays drifted across a hash-version migration: its hash
          annotation is not re-stamped with the pool's new hash *)
       ++ tag (drifted_kept h cb ca) "oracle:drifted-claim-restamped"
-  | CaseSys built_from stamp validated noresolve p pod claim_l provider_l final_l fresh_scenario steps =>
+  | CaseSys built_from stamp validated noresolve p pod claim_l provider_l final_l steps =>
       (* template-fields oracle: the claim's hash annotation is the hash of the template it was built from *)
       tag (stamp_ok hash_version built_from stamp) "oracle:claim-hash-is-not-the-hash-of-its-template"
       ++ tag (claim_labels_allowed noresolve p pod claim_l) "corr:claim-labels"
       ++ tag (labels_eqb (populate claim_l provider_l) final_l) "corr:populate"
-      ++ check_steps 0 fresh_scenario validated false None steps
+      ++ check_steps false None (map (fun st => let '(a, pk, fr, d, o) := st in (a, pk, fr && validated, d, o)) steps)
   | CaseNote => []
   end.
 
